@@ -22,6 +22,7 @@ import KinModel.Lemmas.C05Eq
 import KinModel.Lemmas.C05Nest
 import KinModel.StyleContent
 import KinModel.Gen.StyleCells
+import KinModel.Gen.DecoderFmt
 namespace KinModel.Style
 
 /-! ### primitive texts -/
@@ -1559,6 +1560,52 @@ theorem styleDefaults_eq_model :
     Gen.styleDefaults.all (fun r => match r with
       | .dflt l st ex => decide (defaultMethod l = (st, ex))
       | .unrecognised _ => false) = true := by
+  decide
+
+/-! ### translator table DecoderFmt (regenerated from openapi3filter/req_resp_decoder.go on every run) -/
+
+/-- the extractor understood every case, guard and argument it met -/
+theorem decoderFmt_recognised : Gen.decoderFmt.all FmtRow.ok = true := by decide
+
+/-- the prefixes and delimiters of pathParamDecoder (DecodePrimitive / DecodeArray / DecodeObject) in the source are the
+model's, for every style and explode flag — styles the switches do not list end in "invalid serialization method" in
+both. With `pathPrimPrefix_sym`, `pathArrFmt_sym`, `pathObjFmt_sym` (the model's functions are these symbols evaluated at
+the parameter name) the constants of every path round-trip theorem above are the code's, for every name. -/
+theorem decoderFmt_path_eq_model :
+    allStyles.all (fun st => decide (tblPathPrim Gen.decoderFmt st = symPathPrim st) &&
+      [false, true].all (fun ex => decide (tblPathArr Gen.decoderFmt st ex = symPathArr st ex) &&
+        decide (tblPathObj Gen.decoderFmt st ex = symPathObj st ex))) = true := by
+  decide
+
+/-- the delimiters of urlValuesDecoder.DecodeArray (explode=false) are the model's `queryDelim` -/
+theorem decoderFmt_query_delim_eq_model :
+    allStyles.all (fun st => decide (tblQueryDelim Gen.decoderFmt st = symQueryDelim st)) = true := by
+  decide
+
+/-- the style guards of the query / header / cookie decoders, and the comma / equals constants of their strings.Split and
+propsFromString calls, are the ones the model uses (`queryPrim`: form only; `queryArr`: not deepObject; header: simple only,
+"," and valueDelim "," / "="; cookie: form only, "," — and the `|| sm.Explode` of F-C05-1 is present exactly where the
+code's flavour `impl.cookieExplodeBad` says) -/
+theorem decoderFmt_guards_and_calls :
+    [ FmtRow.guard "urlValuesDecoder.DecodePrimitive" "form" true false,
+      .guard "urlValuesDecoder.DecodeArray" "deepObject" false false,
+      .call "urlValuesDecoder.DecodeObject" "propsFromString" [.lit ",", .lit ","],
+      .guard "headerParamDecoder.DecodePrimitive" "simple" true false,
+      .guard "headerParamDecoder.DecodeArray" "simple" true false,
+      .call "headerParamDecoder.DecodeArray" "strings.Split" [.lit ","],
+      .guard "headerParamDecoder.DecodeObject" "simple" true false,
+      .assign "headerParamDecoder.DecodeObject" "valueDelim" (.lit ","),
+      .assign "headerParamDecoder.DecodeObject" "valueDelim" (.lit "="),
+      .call "headerParamDecoder.DecodeObject" "propsFromString" [.lit ",", .ident "valueDelim"],
+      .guard "cookieParamDecoder.DecodePrimitive" "form" true false,
+      .guard "cookieParamDecoder.DecodeArray" "form" true impl.cookieExplodeBad,
+      .call "cookieParamDecoder.DecodeArray" "strings.Split" [.lit ","],
+      .guard "cookieParamDecoder.DecodeObject" "form" true impl.cookieExplodeBad,
+      .call "cookieParamDecoder.DecodeObject" "propsFromString" [.lit ",", .lit ","] ].all
+      (fun r => Gen.decoderFmt.contains r) = true ∧
+    -- nothing else guards, splits or assigns in these methods
+    (Gen.decoderFmt.filter (fun r => match r with | .guard _ _ _ _ => true | _ => false)).length = 8 ∧
+    (Gen.decoderFmt.filter (fun r => match r with | .assign _ _ _ => true | _ => false)).length = 2 := by
   decide
 
 end KinModel.Style
